@@ -26,7 +26,7 @@ T = {
          'Histories on a single DecompressorOxide with arbitrary flag words, slice lengths (incl. 0, 1, non-powers of two, > 32 KiB), out_pos up to len+1 and inputs from valid/invalid/random sources; after each call: no panic (release and debug assertions), counters within bounds, BadParam iff geometry unusable and then the serialised image unchanged, failure sticky until init(). Workers are separate processes so aborts/hangs are attributed and confirmed in isolation.',
          'States reachable by real calls/clone/serde round trips (no forged serde images). A hang is only reported after an isolated 600 s confirmation; otherwise exit 2.', '6/C05'),
  'C06': ('property-based testing: valid stream + arbitrary trailing bytes x chunkings x entry points; oracle = exact encoded length from the grammar bit writer / reference inflater',
-         'Encoded length is computed independently (bit writer, reference inflater) and compared with the consumed totals of the flat decoder, 32 KiB ring, inflate(), mz_inflate (total_in and next_in) and tinfl_decompress, for final blocks ending at all 8 bit offsets and read-ahead tiers.', 'Trailing bytes include look-alike headers. Reference inflater trusted.', '6/C06'),
+         'Encoded length is computed independently (bit writer, reference inflater) and compared with the consumed totals of the flat decoder, 32 KiB ring, inflate(), mz_inflate (total_in and next_in) and tinfl_decompress, for final blocks ending at all 8 bit offsets and read-ahead tiers; zlib streams also with the checksum ignored and with the input cut inside the trailer.', 'Trailing bytes include look-alike headers. Reference inflater trusted.', '6/C06'),
  'C07': ('property-based testing, metamorphic relation (one-call result == result under any input partition / output budget), exhaustive over every cut point for short inputs',
          'For valid and invalid inputs the (output, status, consumed) triple of a maximal-call run is compared with every single cut point, byte-wise feeding, small budgets, random partitions and ring sizes, in release and debug builds; evidence lists the (state, status) suspension points reached.', 'The oracle is the crate itself under a different schedule plus the reference plaintext for valid streams; for inflate() on invalid input only verdict and prefix relation are compared (pending window data is dropped on error as in miniz).', '6/C07'),
  'C08': ('property-based testing with canary-filled output buffers compared byte-for-byte outside the granted region after every call; limit functions checked against the reference plaintext',
@@ -36,7 +36,7 @@ T = {
  'C11': ('property-based testing with inputs built to contain repeats just beyond each declarable window; oracle = reference inflater in declared-window mode + decode in a ring of exactly the declared size + zlib trusting the header',
          'with_params over window_bits 0..16 x levels x strategies; the header window is compared with every distance in the reference trace and the stream is decoded with exactly the declared window.', 'zlib is a second opinion only.', '6/C11'),
  'C12': ('property-based testing over schedules rich in mid-stream flushes; oracle = reference inflater run on exactly the bytes emitted so far, and on the remainder after a full flush in flat mode',
-         'At every flush return satisfying the property\'s side conditions the emitted prefix must decode (Incomplete, never Invalid) to exactly the input supplied so far, Sync/Full must end in 00 00 FF FF byte-aligned, the remainder after Full must decode standalone; NoSync+Sync == Sync byte-for-byte.', 'Reference inflater trusted.', '6/C12'),
+         'At every flush return satisfying the property\'s side conditions the emitted prefix must decode (Incomplete, never Invalid) to exactly the input supplied so far, Sync/Full must end in 00 00 FF FF byte-aligned, the remainder after Full must decode standalone; NoSync+Sync == Sync byte-for-byte. Full flushes drained over several calls are covered by a dedicated family and by a token-trace oracle (no match after a Full-flush marker reaches back across it).', 'Reference inflater trusted.', '6/C12'),
  'C13': ('stateful / model-based testing: bounded exhaustive DFS over call sequences (cloning InflateState per node) + random histories, checked against an executable protocol relation and reference-inflater ground truth',
          'All call sequences of length <= 3 (quick) / 4 (thorough) over a 64-letter alphabet from 13 fixed streams are enumerated, plus random histories up to 200 calls and the two usual driver loops; the relation encodes only the clauses the property states.', 'Ground truth = reference inflater with zeroed 32 KiB ring semantics. Clauses the property leaves open stay open (documented in DESIGN).', '6/C13'),
  'C14': ('stateful / model-based testing: bounded exhaustive DFS over call sequences (cloning the compressor per node) + random histories with a Finish loop, checked against an executable protocol relation',
@@ -48,13 +48,13 @@ T = {
  'C16': ('property-based testing: definitional checksums as oracle, arbitrary splits and start values, three builds (scalar release, debug assertions, simd feature); running checksums checked after every call',
          'mz_adler32_oxide / mz_crc32_oxide / mz_adler32 / mz_crc32 chained over arbitrary pieces vs the definitions on lengths around the SIMD lane sizes, 5552 and 64 KiB with all-0xFF worst cases; CompressorOxide::adler32, DecompressorOxide::adler32 and mz_stream.adler after every call of generated schedules.', 'Definitions are known-answer tested and compared with zlib in the self-check. The simd build is a second binary (target-simd).', '6/C16'),
  'C17': ('differential property-based testing (C function vs corresponding Rust call on the same schedule) with guard-page fault injection for out-of-range accesses, enumerated misuse cases, process-level crash attribution',
-         'All exported functions; every buffer handed to C abuts a PROT_NONE page (end- or start-aligned) so any out-of-range access kills the worker, which the orchestrator attributes via the journal and confirms in isolation; accounting identities around every stream call; 27 misuse cases and parameter sweeps must return error codes; release and debug-assertion builds (the latter turns UB-by-precondition into aborts).', 'Null decompressor objects / null size pointers of tinfl_decompress are outside the property\'s list and not asserted.', '6/C17'),
+         'All exported functions; every buffer handed to C abuts a PROT_NONE page (end- or start-aligned) so any out-of-range access kills the worker, which the orchestrator attributes via the journal and confirms in isolation; accounting identities around every stream call; object histories (mz_deflateReset after complete / partial / empty streams, repeated tdefl_init with and without callback); 27 misuse cases and parameter sweeps must return error codes; release and debug-assertion builds (the latter turns UB-by-precondition into aborts).', 'Null decompressor objects / null size pointers of tinfl_decompress are outside the property\'s list and not asserted.', '6/C17'),
  'C18': ('stateful property-based testing: generated history -> reset variant -> workload, compared with a fresh object (differential), plus twice-fresh determinism',
          'CompressorOxide::reset, InflateState reset policies (Min/Zero/Full/reset), DecompressorOxide::init and mz_deflateReset after histories that abandon streams mid-way, hit errors or change levels; byte-identical output and identical per-call results vs a fresh object.', 'MinReset workloads exclude streams that reference data before their own start (documented contract); excluded cases are counted.', '6/C18'),
  'C19': ('property-based testing: snapshot/restore (clone, rmp-serde, serde_json, block-boundary record) injected at generated inter-call points, compared with the uninterrupted run; boundary protocol checked against the reference block trace',
          'Per-call traces, output and checksum verdict after continuing from a clone / serialise-deserialise copy must equal the uninterrupted run; with stop-at-block-boundary every stop is checked against the reference inflater\'s block ends (count, position, num_bits, bit_buf) and the decoder is rebuilt from the boundary record with everything older than 32 KiB scrubbed.', 'Reference inflater supplies block end positions.', '6/C19'),
  'C20': ('exhaustive enumeration of the feature lattice (configurations as generated inputs) with the compiler/linker as oracle; compile-time trait assertions; no-allocator link probe; lexical scan',
-         'This property is about program text, so there is no behaviour to run; what this family can still do is enumerate the finite configuration space completely: 32 feature subsets (x 4 targets in the thorough tier) built with -F unsafe_code, a no_std/no-allocator staticlib probe, Send+Sync+Clone+\'static assertions, and a token scan for cfg arms no available target compiles.', 'rustc\'s unsafe_code lint is the arbiter; wasm32 / rustc-dep-of-std arms are only scanned lexically.', '6/C20'),
+         'This property is about program text, so there is no behaviour to run; what this family can still do is enumerate the finite configuration space completely: 32 feature subsets (x 4 targets in the thorough tier) built with -F unsafe_code, a no_std/no-allocator staticlib probe, Send+Sync+Clone+\'static assertions evaluated in each of the 32 feature sets, and a token scan for cfg arms no available target compiles.', 'rustc\'s unsafe_code lint is the arbiter; wasm32 / rustc-dep-of-std arms are only scanned lexically.', '6/C20'),
 }
 
 checks = []
